@@ -38,7 +38,7 @@ for t in targets:
         procs = []
         for j in range(ncpu):
             cmd = [exe, f"-runs={runs}", f"-seed={seed * 1000 + j + 1}", "-len_control=0", f"-max_len={t['max_len']}",
-                   "-rss_limit_mb=4096", "-malloc_limit_mb=1024", "-timeout=60", "-reload=1",
+                   "-rss_limit_mb=4096", "-malloc_limit_mb=1024", "-timeout=60", "-reload=120",
                    f"-artifact_prefix={art}", "-print_final_stats=1"] + ([f"-dict={os.path.join(FZ, t['dict'])}"] if t.get("dict") and os.path.exists(os.path.join(FZ, t["dict"])) else []) + [work]
             procs.append(subprocess.Popen(cmd, cwd=work, env=dict(env, VERIF_ROOT=ROOT), stdout=subprocess.PIPE, stderr=subprocess.STDOUT, text=True))
         logs = ""
